@@ -167,7 +167,12 @@ def work_paren(chunk):
     cases = []
     for length, idx, depth in chunk:
         ops = decode_chain(idx, length)
+        seen = set()
         for items, o in paren_placements(length, NAMES, ops, depth):
+            s = src_of(items, o)
+            if s in seen:      # distinct source texts only (a chain determines its texts)
+                continue
+            seen.add(s)
             cases.append(("paren%d" % depth, items, o))
     return _check_cases(cases)
 
